@@ -37,6 +37,7 @@ struct Entry {
     line: usize,
     pc_lo: usize,
     pc_hi: usize,
+    segment: String,
 }
 
 fn entries(a: &Assembled) -> Vec<Entry> {
@@ -55,6 +56,7 @@ fn entries(a: &Assembled) -> Vec<Entry> {
                 line: sl.begin.line + 1,
                 pc_lo: o.pc.start,
                 pc_hi: o.pc.end,
+                segment: o.segment.to_string(),
             }
         })
         .collect()
@@ -176,8 +178,8 @@ pub fn prop(c: &Case, log: &mut CaseLog) -> Verdict {
     // ---- (i)+(ii) source map entries vs model sites
     let es = entries(&a);
     let sites: Vec<&Site> = m.sites.iter().filter(|s| s.len > 0).collect();
-    let mut want: Vec<(usize, usize)> = sites.iter().map(|s| (s.pc as usize, s.pc as usize + s.len)).collect();
-    let mut got: Vec<(usize, usize)> = es.iter().filter(|e| e.pc_hi > e.pc_lo).map(|e| (e.pc_lo, e.pc_hi)).collect();
+    let mut want: Vec<(String, usize, usize)> = sites.iter().map(|s| (m.segs[s.seg].name.clone(), s.pc as usize, s.pc as usize + s.len)).collect();
+    let mut got: Vec<(String, usize, usize)> = es.iter().filter(|e| e.pc_hi > e.pc_lo).map(|e| (e.segment.clone(), e.pc_lo, e.pc_hi)).collect();
     want.sort();
     got.sort();
     if want != got {
@@ -193,7 +195,7 @@ pub fn prop(c: &Case, log: &mut CaseLog) -> Verdict {
             Some(x) => x,
             None => continue,
         };
-        let mut ok = es.iter().any(|e| e.pc_lo == s.pc as usize && e.pc_hi == s.pc as usize + s.len && e.file == file && e.lo >= lo && e.hi <= hi);
+        let mut ok = es.iter().any(|e| e.pc_lo == s.pc as usize && e.pc_hi == s.pc as usize + s.len && e.segment == m.segs[s.seg].name && e.file == file && e.lo >= lo && e.hi <= hi);
         if !ok && c.move_macro && !s.via.is_empty() {
             // bytes emitted in a nested scope of a macro body (a loop or braces inside the macro) stay attributed to the
             // statement that emitted them; an enclosing invocation is accepted as well: all are "the statement that
@@ -211,7 +213,7 @@ pub fn prop(c: &Case, log: &mut CaseLog) -> Verdict {
                     }
                 }
             }
-            ok = es.iter().any(|e| e.pc_lo == s.pc as usize && e.pc_hi == s.pc as usize + s.len && cands.iter().any(|(f, a, b)| &e.file == f && e.lo >= *a && e.hi <= *b));
+            ok = es.iter().any(|e| e.pc_lo == s.pc as usize && e.pc_hi == s.pc as usize + s.len && e.segment == m.segs[s.seg].name && cands.iter().any(|(f, a, b)| &e.file == f && e.lo >= *a && e.hi <= *b));
         }
         if !ok {
             let near: Vec<&Entry> = es.iter().filter(|e| e.pc_lo == s.pc as usize).collect();
@@ -259,10 +261,11 @@ pub fn prop(c: &Case, log: &mut CaseLog) -> Verdict {
         Err(pn) => return Verdict::fail(feat(&format!("listing-{}", pn.signature())), text),
     };
     // bytes by target address (only meaningful without overlap)
-    let mut by_addr: BTreeMap<usize, u8> = BTreeMap::new();
+    // several segments may run at the same addresses: a row's byte must be one of the bytes stored for that address
+    let mut by_addr: BTreeMap<usize, Vec<u8>> = BTreeMap::new();
     for s in &sites {
         for (i, bt) in s.bytes.iter().enumerate() {
-            by_addr.insert(s.pc as usize + i, *bt);
+            by_addr.entry(s.pc as usize + i).or_default().push(*bt);
         }
     }
     let mut listed_total = 0usize;
@@ -298,9 +301,9 @@ pub fn prop(c: &Case, log: &mut CaseLog) -> Verdict {
                 if r.bytes.is_empty() || r.bytes.len() > n {
                     return Verdict::fail(feat("listing-row-byte-count"), format!("{}\nrow {:?}", text, r));
                 }
-                if !overlap {
+                {
                     for (i, bt) in r.bytes.iter().enumerate() {
-                        if by_addr.get(&(addr + i)) != Some(bt) {
+                        if !by_addr.get(&(addr + i)).map(|v| v.contains(bt)).unwrap_or(false) {
                             return Verdict::fail(
                                 feat("listing-row-bytes-not-at-row-address"),
                                 format!("{}\nfile {} line {}: row address ${:04x} shows byte {} = ${:02x}, image has {:02x?} at ${:04x}\nlisting:\n{}", text, file, r.line, addr, i, bt, by_addr.get(&(addr + i)), addr + i, ltext),
@@ -322,7 +325,7 @@ pub fn prop(c: &Case, log: &mut CaseLog) -> Verdict {
         let _ = r;
         for s in &sites {
             // which line the bytes are attributed to is taken from the (already validated) source map entry
-            let e = es.iter().find(|e| e.pc_lo == s.pc as usize && e.pc_hi == s.pc as usize + s.len);
+            let e = es.iter().find(|e| e.pc_lo == s.pc as usize && e.pc_hi == s.pc as usize + s.len && e.segment == m.segs[s.seg].name);
             if let Some(e) = e {
                 if &e.file == file {
                     want_per_line.entry(e.line).or_default().extend(s.bytes.iter());
